@@ -324,16 +324,87 @@ def build_case(rng, spec, is_fgg, ids):
         g.add_factor(b.els[el], fac)
     return g, info
 
-def positions(g):
-    """for every rule (all_rules order): (node perm, edge perm) = rank of each node/edge in sorted(str(id)) order"""
+def _rank_positions(r):
+    ns = list(r.rhs.nodes()); es = list(r.rhs.edges())
+    sn = sorted(range(len(ns)), key=lambda i: str(ns[i].id))
+    se = sorted(range(len(es)), key=lambda i: str(es[i].id))
+    pn = [0] * len(ns); pe = [0] * len(es)
+    for rank, i in enumerate(sn): pn[i] = rank
+    for rank, i in enumerate(se): pe[i] = rank
+    return pn, pe
+
+def _idkey(i): return i if isinstance(i, str) else None
+
+def _check_iso(r, r2, pn, pe):
+    """Python mirror of graph_iso_b (only used to pick the witness handed to the verified checker)"""
+    ns, es, ns2, es2 = list(r.rhs.nodes()), list(r.rhs.edges()), list(r2.rhs.nodes()), list(r2.rhs.edges())
+    if len(ns) != len(ns2) or len(es) != len(es2): return False
+    img = {}
+    for i, v in enumerate(ns):
+        w = ns2[pn[i]]
+        if v.label != w.label or _idkey(v.id) != _idkey(w.id) or isinstance(v.id, str) != isinstance(w.id, str): return False
+        img[v.id] = w.id
+    if [img.get(v.id) for v in r.rhs.ext] != [w.id for w in r2.rhs.ext]: return False
+    for i, e in enumerate(es):
+        f = es2[pe[i]]
+        if e.label != f.label or _idkey(e.id) != _idkey(f.id) or isinstance(e.id, str) != isinstance(f.id, str): return False
+        if [img.get(v.id) for v in e.nodes] != [w.id for w in f.nodes]: return False
+    return True
+
+def _search_iso(r, r2, limit=5000):
+    """look for some bijection (nodes, edges) under which r2 is isomorphic to r; None if none found"""
+    ns, es, ns2, es2 = list(r.rhs.nodes()), list(r.rhs.edges()), list(r2.rhs.nodes()), list(r2.rhs.edges())
+    if len(ns) != len(ns2) or len(es) != len(es2): return None
+    cands = []
+    for v in ns:
+        cands.append([j for j, w in enumerate(ns2) if w.label == v.label and
+                      (w.id == v.id if isinstance(v.id, str) else not isinstance(w.id, str))])
+    tried = [0]
+    def edges_for(pn):
+        img = {v.id: ns2[pn[i]].id for i, v in enumerate(ns)}
+        used = set(); pe = []
+        for e in es:
+            want = [img[v.id] for v in e.nodes]
+            hit = None
+            for j, f in enumerate(es2):
+                if j in used or f.label != e.label or [w.id for w in f.nodes] != want: continue
+                if isinstance(e.id, str):
+                    if f.id != e.id: continue
+                elif isinstance(f.id, str): continue
+                hit = j; break
+            if hit is None: return None
+            used.add(hit); pe.append(hit)
+        return pe
+    def go(i, pn, used):
+        if tried[0] > limit: return None
+        if i == len(ns):
+            tried[0] += 1
+            img = {v.id: ns2[pn[k]].id for k, v in enumerate(ns)}
+            if [img[v.id] for v in r.rhs.ext] != [w.id for w in r2.rhs.ext]: return None
+            pe = edges_for(pn)
+            return (list(pn), pe) if pe is not None else None
+        for j in cands[i]:
+            if j in used: continue
+            used.add(j); pn.append(j)
+            res = go(i + 1, pn, used)
+            if res is not None: return res
+            used.discard(j); pn.pop()
+        return None
+    return go(0, [], set())
+
+def positions(g, g2):
+    """For every pair of rules (all_rules order) the bijection (node positions, edge positions) handed to
+    the verified checker hrg_iso_b.  The candidate read off the code (rank in sorted(str(id)) order) is
+    tried first; if the Python mirror of the checker does not like it, any other bijection is searched
+    for, so that an implementation which merely orders nodes/edges differently is not accused of
+    breaking the property (it will still differ from the model: a 'no failing input' report)."""
     out = []
-    for r in g.all_rules():
-        ns = list(r.rhs.nodes()); es = list(r.rhs.edges())
-        sn = sorted(range(len(ns)), key=lambda i: str(ns[i].id))
-        se = sorted(range(len(es)), key=lambda i: str(es[i].id))
-        pn = [0] * len(ns); pe = [0] * len(es)
-        for rank, i in enumerate(sn): pn[i] = rank
-        for rank, i in enumerate(se): pe[i] = rank
+    rs, rs2 = g.all_rules(), g2.all_rules()
+    for k, r in enumerate(rs):
+        pn, pe = _rank_positions(r)
+        if k < len(rs2) and not _check_iso(r, rs2[k], pn, pe):
+            alt = _search_iso(r, rs2[k])
+            if alt is not None: pn, pe = alt
         out.append((pn, pe))
     return out
 
@@ -358,7 +429,7 @@ def roundtrip(g, is_fgg, second):
     if second:
         j2 = json.loads(json.dumps(to_json(g2)))
     idn2 = IdNum()
-    return ("ObsOk", (jw(j), fggw(g2, idn2, is_fgg), positions(g), None if j2 is None else jw(j2))), j, (g2, j2)
+    return ("ObsOk", (jw(j), fggw(g2, idn2, is_fgg), positions(g, g2), None if j2 is None else jw(j2))), j, (g2, j2)
 
 def all_explicit(g):
     return all(isinstance(v.id, str) for r in g.all_rules() for v in r.rhs.nodes()) and \
@@ -545,6 +616,7 @@ FGG_CODES = {
     4: "the round trip raised an exception on a well-formed grammar",
     5: "the edge-label table changed in the round trip",
     6: "domains or factors differ after the round trip (as dense tensors)",
+    7: "the round trip raised an exception on a well-formed grammar (the model does not raise it)",
     10: "fgg_to_json differs from the model's JSON",
     11: "json_to_fgg differs from the model's grammar (up to numbering of implicit ids)",
     12: "the second JSON differs from the model's",
@@ -738,6 +810,7 @@ def run(tier, seed):
 
     WC = {1: "json_to_weights(spec).to_dense() is not the tensor the specification denotes (verified spec_denote disagrees)",
           2: "harness bug: specification not well formed or JSON mismatch", 4: "a well-formed patterned specification was rejected",
+          7: "a well-formed patterned specification was rejected (the model accepts it)",
           10: "dense result differs from the model's", 13: "exception kind differs from the model's"}
     for v, m, c in zip(wvals, wmetas, wcodes):
         bump("verdicts", "w:%d" % c)
